@@ -46,6 +46,35 @@ NonPlain == { VUuid(1, 0), VObj("tuple0", <<>>, NoneOpt), VObj("tuple12", <<>>, 
               VObj("range3", <<>>, NoneOpt), VObj("object_a", <<>>, NoneOpt),
               VObj("type_int", <<>>, NoneOpt), VEllipsis }
 
+\* the non-plain members that can be dict keys (hashable)
+HashableNonPlain == NonPlain \ {VObj("set1", <<>>, NoneOpt), VObj("bytearray_ab", <<>>, NoneOpt)}
+
+RECURSIVE KeyInjections(_)
+\* v with one dict key, at any depth, replaced by a member of another kind
+KeyInjections(v) ==
+  CASE v.k = "list" -> UNION {{[v EXCEPT !.items[i] = w] : w \in KeyInjections(v.items[i])} : i \in DOMAIN v.items}
+    [] v.k = "dict" -> UNION {{[v EXCEPT !.pairs[i].key = x] : x \in HashableNonPlain}
+                              \cup {[v EXCEPT !.pairs[i].val = w] : w \in KeyInjections(v.pairs[i].val)}
+                              : i \in DOMAIN v.pairs}
+    [] OTHER -> {}
+
+RECURSIVE ForeignOutsideKeys(_)
+\* some member other than a dict key is of a kind from_native does not know
+ForeignOutsideKeys(v) ==
+  IF v \in NonPlain THEN TRUE
+  ELSE CASE v.k = "list" -> \E i \in DOMAIN v.items : ForeignOutsideKeys(v.items[i])
+         [] v.k = "dict" -> \E i \in DOMAIN v.pairs : ForeignOutsideKeys(v.pairs[i].val)
+         [] v.k = "obj" -> IF IsSome(v.base) THEN ForeignOutsideKeys(Get(v.base)) ELSE TRUE
+         [] v.k = "uuid" -> v.ver # 4
+         [] v.k = "float" -> FALSE
+         [] OTHER -> v.k \in {"ellipsis", "nil"}
+
+RECURSIVE HasEllipsisKey(_)
+HasEllipsisKey(v) ==
+  CASE v.k = "list" -> \E i \in DOMAIN v.items : HasEllipsisKey(v.items[i])
+    [] v.k = "dict" -> \E i \in DOMAIN v.pairs : v.pairs[i].key.k = "ellipsis" \/ HasEllipsisKey(v.pairs[i].val)
+    [] OTHER -> FALSE
+
 RECURSIVE HasForeign(_)
 \* some member is of a kind from_native does not know (an instance of a *subclass* of a
 \* built-in type is, for isinstance, an instance of that type: it does not count)
@@ -71,5 +100,10 @@ SameValue(w0, v0) ==
            /\ \A i \in DOMAIN v.pairs : /\ DictHas(w.pairs, v.pairs[i].key)
                                         /\ SameValue(DictGet(w.pairs, v.pairs[i].key), v.pairs[i].val)
       ELSE VEq(w, v) /\ (w.k = v.k \/ {w.k, v.k} = {"bool", "int"})
+
+\* recorded finding (known_findings.json, from_native.dict_key_of_another_kind): from_native converts
+\* the values of a dict and never looks at its keys -- a Decimal, a tuple, an optional(...) marker as
+\* a key is carried into the schema instead of being refused (`...` as a key is refused)
+KnownKeyOfOtherKind(v) == HasForeign(v) /\ ~ForeignOutsideKeys(v) /\ ~HasEllipsisKey(v)
 
 =============================================================================
